@@ -13,7 +13,9 @@ EXTENDS Integers, Sequences, FiniteSets, TLC, Json, IOUtils
 Traces == JsonDeserialize(IOEnv.TRACE_FILE)
 TExpected == IOEnv.TRACE_EXPECTED
 TFlavour == IOEnv.TRACE_FLAVOUR
-Names == {"raw", "qcow2", "vhd", "vhdx", "vmdk", "vdi", "qed", "iso", "gpt", "luks"}
+AllNames == {"raw", "qcow2", "vhd", "vhdx", "vmdk", "vdi", "qed", "iso", "gpt", "luks"}
+\* allowed_formats: the batch's environment names the formats the wrapper was told to leave out (TRACE_DROP_<name>)
+Names == {nm \in AllNames : ("TRACE_DROP_" \o nm) \notin DOMAIN IOEnv}
 Never == 1000000
 
 VARIABLES failAt, completeAt, match, consumed, delivered, errored, fed, phase,
